@@ -86,24 +86,35 @@ def R_pub(toks):
     return toks, 0
 
 def R_refpat(toks):
-    """`for &x in e {` becomes `for x in e { let x = *x;` (identical for Copy items)."""
+    """`for &x in e {` becomes `for x in e { let x = *x;`; `for &(a, b) in e {` becomes `for __rp in e { let (a, b) = *__rp;`
+    (identical for Copy items)."""
     out = list(toks); n = 0; i = 0
     while i < len(out):
         t = out[i]
-        if t.text == "for" and i + 3 < len(out) and out[i+1].text == "&" and out[i+2].kind == "ident" and out[i+3].text == "in":
-            x = out[i+2]
-            j = i + 4
+        if t.text == "for" and i + 2 < len(out) and out[i+1].text == "&":
+            if out[i+2].kind == "ident" and out[i+3].text == "in":
+                pat = [out[i+2]]; pe = i + 3; name = out[i+2].text; tuple_pat = False
+            elif out[i+2].text == "(":
+                pe = match_close(out, i + 2) + 1
+                if out[pe].text != "in": i += 1; continue
+                pat = out[i+2:pe]; name = "__rp"; tuple_pat = True
+            else:
+                i += 1; continue
+            j = pe + 1
             while j < len(out):
                 u = out[j]
                 if u.kind == "punct" and u.text in OPEN:
                     if u.text == "{": break
                     j = match_close(out, j) + 1; continue
                 j += 1
-            ins = _mk(["let", x.text, "=", "*", x.text, ";"], out[j], " ")
-            del out[i+1]
-            out[i+1].pre = " "
-            j -= 1
-            out[j+1:j+1] = ins
+            if tuple_pat:
+                ins = _mk(["let"], out[j], " ") + [x.copy() for x in pat] + _mk(["=", "*", name, ";"], out[j], " ")
+                ins[1].pre = " "
+                new_head = _mk([name], out[i+2], " ")
+            else:
+                ins = _mk(["let", name, "=", "*", name, ";"], out[j], " ")
+                new_head = _mk([name], out[i+2], " ")
+            out = out[:i+1] + new_head + out[pe:j+1] + ins + out[j+1:]
             n += 1
         i += 1
     return out, n
@@ -297,7 +308,7 @@ def R_closure(toks, arg):
                 return out, 1
             i = pe + 1; continue
         i += 1
-    raise ScanError(f"R-closure: closure #{n} not found")
+    return toks, 0      # no such closure (any more): nothing to rewrite
 
 def R_pubcrate(toks):
     """`pub(crate)` becomes `pub` (visibility only; the single-file unit has its own module layout)."""
@@ -344,8 +355,8 @@ def R_clock(toks):
     return out, n
 
 def R_forcontinue(toks):
-    """inside a `for` body, a leading `if COND { continue; } REST…` becomes `if COND { } else { REST… }` (same control flow;
-    Verus 0.2026.09.13 does not support `continue` in for-loops)."""
+    """inside a `for` body, a top-level statement `if COND { continue; }` followed by REST… becomes `if COND { } else { REST… }`
+    (same control flow; Verus 0.2026.09.13 does not support `continue` in for-loops)."""
     out = list(toks); n = 0; i = 0
     while i < len(out):
         t = out[i]
@@ -359,15 +370,20 @@ def R_forcontinue(toks):
                 j += 1
             bo = j; bc = match_close(out, bo)
             k = bo + 1
-            if out[k].text == "if":
-                m = k + 1
-                while out[m].text != "{":
-                    m = match_close(out, m) + 1 if out[m].text in OPEN else m + 1
-                me = match_close(out, m)
-                if [x.text for x in out[m+1:me]] == ["continue", ";"]:
-                    # delete `continue;`, wrap the rest of the body in else { }
-                    new = out[:m+1] + [out[me]] + _mk(["else", "{"], out[me], " ") + out[me+1:bc] + _mk(["}"], out[bc], " ") + out[bc:]
-                    out = new; n += 1
+            while k < bc:
+                if out[k].text == "if":
+                    m = k + 1
+                    while out[m].text != "{":
+                        m = match_close(out, m) + 1 if out[m].text in OPEN else m + 1
+                    me = match_close(out, m)
+                    if [x.text for x in out[m+1:me]] == ["continue", ";"] and (me + 1 >= bc or out[me+1].text != "else"):
+                        out = out[:m+1] + [out[me]] + _mk(["else", "{"], out[me], " ") + out[me+1:bc] + _mk(["}"], out[bc], " ") + out[bc:]
+                        n += 1
+                    break
+                # skip one top-level statement
+                while k < bc and out[k].text != ";":
+                    k = match_close(out, k) + 1 if (out[k].kind == "punct" and out[k].text in OPEN) else k + 1
+                k += 1
         i += 1
     return out, n
 
